@@ -448,6 +448,11 @@ func gomaxprocsFor(shards int) string {
 func Finish(c *Check, e *Env, total *Result, failed []string) int {
 	known := loadKnown(e.Verif)
 	os.MkdirAll(filepath.Join(e.Verif, "replays"), 0o755)
+	if old, _ := filepath.Glob(filepath.Join(e.Verif, "replays", c.ID+"-*.json")); len(old) > 0 {
+		for _, p := range old {
+			os.Remove(p)
+		}
+	}
 	os.MkdirAll(filepath.Join(e.Verif, "evidence"), 0o755)
 	sort.SliceStable(total.Violations, func(i, j int) bool { return total.Violations[i].Key < total.Violations[j].Key })
 	knownHit := map[string]int{}
